@@ -379,31 +379,148 @@ def feasible_reach(g: CFG, avoid: set[int], stable_preds: tuple[str, ...] = ("is
     return out
 
 
-def aliased_store_mutations(func_node: ast.AST, attrs: Iterable[str] | None = None) -> list[tuple[ast.AST, str, str]]:
-    """Mutating method calls / subscript stores / augmented assignments on LOCAL names that may alias
-    (a part of) a store attribute: names bound to `self.<attr>`, `self.<attr>[k]`, `self.<attr>.get(..)`,
-    `.setdefault(..)`, elements of lists that such values were appended to, subscripts / iteration
-    of such names.  `.copy()`, `set(x)`, `list(x)`, `dict(x)`, `sorted(x)`, `frozenset(x)`, comprehensions
-    and binary set operations produce FRESH objects.  Returns (node, local name, store attribute)."""
-    want = set(attrs) if attrs is not None else None
-    alias: dict[str, str] = {}
 
-    def source_attr(v: ast.AST) -> str | None:
+# ---------------------------------------------------------------------------------------------
+# reaching definitions + flow-sensitive aliasing of store values
+
+
+@dataclass
+class Def:
+    name: str
+    value: ast.AST | None  # bound expression (None: opaque, e.g. a with-as name or a parameter)
+    kind: str  # assign | iter (element of value) | weak (container gains value) | opaque
+    node: int  # CFG node id
+    idx: int = 0
+
+    def __hash__(self) -> int:
+        return self.idx
+
+
+def _defs_of_node(n) -> list[tuple[str, ast.AST | None, str]]:
+    """(name, value, kind) bound by a CFG node"""
+    out: list[tuple[str, ast.AST | None, str]] = []
+    a = n.ast
+    if a is None:
+        return out
+    if n.kind == "for" and isinstance(a, (ast.For, ast.AsyncFor)):
+        if isinstance(a.target, ast.Name):
+            out.append((a.target.id, a.iter, "iter"))
+        else:
+            for t in ast.walk(a.target):
+                if isinstance(t, ast.Name):
+                    out.append((t.id, a.iter, "iter-part"))
+        return out
+    if n.kind == "with-enter" and isinstance(a, (ast.With, ast.AsyncWith)):
+        for it in a.items:
+            if it.optional_vars is not None:
+                for t in ast.walk(it.optional_vars):
+                    if isinstance(t, ast.Name):
+                        out.append((t.id, None, "opaque"))
+        return out
+    if n.kind == "handler" and isinstance(a, ast.ExceptHandler) and a.name:
+        return [(a.name, None, "opaque")]
+    if n.kind in ("with-exit", "with-exit-exc"):
+        return out
+    if isinstance(a, ast.Assign):
+        for t in a.targets:
+            if isinstance(t, ast.Name):
+                out.append((t.id, a.value, "assign"))
+            elif isinstance(t, (ast.Tuple, ast.List)):
+                for tt in ast.walk(t):
+                    if isinstance(tt, ast.Name):
+                        out.append((tt.id, None, "opaque"))
+    elif isinstance(a, ast.AnnAssign) and isinstance(a.target, ast.Name) and a.value is not None:
+        out.append((a.target.id, a.value, "assign"))
+    elif isinstance(a, ast.AugAssign) and isinstance(a.target, ast.Name):
+        out.append((a.target.id, None, "aug"))
+    # walrus anywhere in the node's expression (tests, calls)
+    for x in ast.walk(a) if not isinstance(a, (ast.FunctionDef, ast.AsyncFunctionDef, ast.ClassDef, ast.For, ast.AsyncFor, ast.With, ast.AsyncWith)) else []:
+        if isinstance(x, ast.NamedExpr) and isinstance(x.target, ast.Name):
+            out.append((x.target.id, x.value, "assign"))
+    # a local container gains a value
+    if isinstance(a, ast.Expr) and isinstance(a.value, ast.Call) and isinstance(a.value.func, ast.Attribute) and a.value.func.attr in ("append", "add", "extend", "insert") and isinstance(a.value.func.value, ast.Name) and a.value.args:
+        out.append((a.value.func.value.id, a.value.args[-1], "weak"))
+    return out
+
+
+def reaching_definitions(g: CFG) -> tuple[list[Def], dict[int, set[Def]]]:
+    """classic forward may-analysis; returns (all defs, IN set per node id)"""
+    defs: list[Def] = []
+    gen: dict[int, list[Def]] = {}
+    for n in g.nodes:
+        for name, val, kind in _defs_of_node(n):
+            d = Def(name, val, kind, n.id, len(defs))
+            defs.append(d)
+            gen.setdefault(n.id, []).append(d)
+    IN: dict[int, set[Def]] = {n.id: set() for n in g.nodes}
+    OUT: dict[int, set[Def]] = {n.id: set() for n in g.nodes}
+    work = [n.id for n in g.nodes]
+    while work:
+        i = work.pop()
+        new_in: set[Def] = set()
+        for p, lab in g.pred.get(i, []):
+            new_in |= OUT[p]
+            if lab == "exc":
+                new_in |= IN[p]  # the statement may have raised before binding
+        IN[i] = new_in
+        killed = {d.name for d in gen.get(i, []) if d.kind != "weak"}
+        out = {d for d in new_in if d.name not in killed} | set(gen.get(i, []))
+        if out != OUT[i]:
+            OUT[i] = out
+            for s_, _ in g.succ.get(i, []):
+                work.append(s_)
+    return defs, IN
+
+
+_FRESH_CALLS = ("set", "list", "dict", "sorted", "frozenset", "tuple", "len", "str", "int", "bool", "sum", "min", "max", "any", "all")
+
+
+def aliased_store_mutations(func_node: ast.AST, attrs: Iterable[str] | None = None) -> list[tuple[ast.AST, str, str]]:
+    """Mutations of a store attribute through a LOCAL alias, flow-sensitively.
+
+    A definition aliases store attribute A when its value is `self.A`, `self.A[k]`,
+    `self.A.get(..)/.setdefault(..)/.pop(..)`, an element of such a value (for-loop over it or over
+    `.values()`), a subscript of an aliasing local, or another aliasing local - decided with the
+    definitions REACHING that point.  `.copy()`, `set(x)`, `list(x)`, comprehensions and binary set
+    operations give fresh objects.  Reported: mutating method calls, subscript stores / deletes
+    and augmented assignments whose root name has a reaching definition that aliases a store value
+    itself (a purely local list that merely collects store values is not a store).
+    Returns (node, local name, store attribute)."""
+    want = set(attrs) if attrs is not None else None
+    g = build_cfg(func_node)
+    defs, IN = reaching_definitions(g)
+    pm = parent_map(func_node)
+    alias: dict[Def, str] = {}  # def -> store attr it aliases DIRECTLY (the object is (part of) the store)
+    holds: dict[Def, str] = {}  # def -> store attr whose values it merely contains (local container)
+
+    def lookup(name: str, at: int, table: dict[Def, str]) -> str | None:
+        for d in IN[at]:
+            if d.name == name and d in table:
+                return table[d]
+        return None
+
+    def source_attr(v: ast.AST | None, at: int) -> str | None:
+        if v is None:
+            return None
         if isinstance(v, ast.Call):
             nm = call_name(v)
-            if nm in ("copy", "deepcopy") or (isinstance(v.func, ast.Name) and v.func.id in ("set", "list", "dict", "sorted", "frozenset", "tuple", "len")):
+            if nm in ("copy", "deepcopy") or (isinstance(v.func, ast.Name) and v.func.id in _FRESH_CALLS):
                 return None
             if nm in ("get", "setdefault", "pop") and isinstance(v.func, ast.Attribute):
                 a = self_attr(v.func.value)
                 if a is not None and (want is None or a in want):
                     return a
-                if isinstance(v.func.value, ast.Name) and v.func.value.id in alias:
-                    return alias[v.func.value.id]
-            return None
-        if isinstance(v, (ast.ListComp, ast.SetComp, ast.DictComp, ast.GeneratorExp, ast.BinOp, ast.Compare, ast.Constant, ast.JoinedStr)):
+                if isinstance(v.func.value, ast.Name):
+                    return lookup(v.func.value.id, at, alias)
             return None
         if isinstance(v, ast.IfExp):
-            return source_attr(v.body) or source_attr(v.orelse)
+            return source_attr(v.body, at) or source_attr(v.orelse, at)
+        if isinstance(v, ast.BoolOp):
+            for x in v.values:
+                r = source_attr(x, at)
+                if r:
+                    return r
+            return None
         if isinstance(v, (ast.Attribute, ast.Subscript)):
             a = self_attr(v)
             if a is not None and (want is None or a in want):
@@ -411,83 +528,81 @@ def aliased_store_mutations(func_node: ast.AST, attrs: Iterable[str] | None = No
             root = v
             while isinstance(root, (ast.Attribute, ast.Subscript)):
                 root = root.value
-            if isinstance(root, ast.Name) and root.id in alias and isinstance(v, ast.Subscript):
-                return alias[root.id]
+            if isinstance(root, ast.Name) and isinstance(v, ast.Subscript):
+                return lookup(root.id, at, alias) or lookup(root.id, at, holds)
             return None
-        if isinstance(v, ast.Name) and v.id in alias:
-            return alias[v.id]
+        if isinstance(v, ast.Name):
+            return lookup(v.id, at, alias)
         return None
 
     changed = True
     rounds = 0
-    while changed and rounds < 6:
+    while changed and rounds < 8:
         changed = False
         rounds += 1
-        for n in walk_no_nested(func_node):
-            if isinstance(n, ast.Assign) and len(n.targets) == 1 and isinstance(n.targets[0], ast.Name):
-                a = source_attr(n.value)
-                if a and alias.get(n.targets[0].id) != a:
-                    alias[n.targets[0].id] = a
+        for d in defs:
+            if d.kind in ("opaque", "aug", "iter-part"):
+                continue
+            if d.kind == "assign":
+                a = source_attr(d.value, d.node)
+                if a and alias.get(d) != a:
+                    alias[d] = a
                     changed = True
-            elif isinstance(n, ast.AnnAssign) and isinstance(n.target, ast.Name) and n.value is not None:
-                a = source_attr(n.value)
-                if a and alias.get(n.target.id) != a:
-                    alias[n.target.id] = a
+                if isinstance(d.value, ast.Name):
+                    h = lookup(d.value.id, d.node, holds)
+                    if h and holds.get(d) != h:
+                        holds[d] = h
+                        changed = True
+            elif d.kind == "iter":
+                it = d.value
+                a = None
+                if isinstance(it, ast.Call) and call_name(it) == "values" and isinstance(it.func, ast.Attribute):
+                    a = source_attr(it.func.value, d.node)
+                elif isinstance(it, ast.Call) and call_name(it) in ("items", "keys", "enumerate", "range", "zip"):
+                    a = None
+                elif isinstance(it, ast.Name):
+                    # elements of a local container of store values are store values; elements of a store container too
+                    a = lookup(it.id, d.node, holds)
+                    if a is None:
+                        a = None  # iterating an aliased dict yields keys; an aliased set yields immutable ids
+                else:
+                    a = None
+                if a and alias.get(d) != a:
+                    alias[d] = a
                     changed = True
-            elif isinstance(n, ast.Call) and call_name(n) in ("append", "add", "extend") and isinstance(n.func, ast.Attribute) and isinstance(n.func.value, ast.Name) and n.args:
-                a = source_attr(n.args[0])
-                if a and alias.get(n.func.value.id) != a:
-                    alias[n.func.value.id] = a  # a local container holding store values
-                    changed = True
-            elif isinstance(n, (ast.For, ast.comprehension)) and isinstance(n.target, ast.Name):
-                a = source_attr(n.iter) if not (isinstance(n.iter, ast.Call) and call_name(n.iter) in ("items", "keys")) else None
-                if isinstance(n.iter, ast.Call) and call_name(n.iter) == "values":
-                    a = source_attr(n.iter.func.value) if isinstance(n.iter.func, ast.Attribute) else None
-                if a and alias.get(n.target.id) != a:
-                    alias[n.target.id] = a
+            elif d.kind == "weak":
+                a = source_attr(d.value, d.node)
+                if a and holds.get(d) != a:
+                    holds[d] = a
                     changed = True
     out: list[tuple[ast.AST, str, str]] = []
+    seen: set[int] = set()
+
+    def at_nodes(x: ast.AST) -> list[int]:
+        return [n.id for n in cfg_node_of(g, func_node, x, pm)]
+
     for n in walk_no_nested(func_node):
+        root = None
         if isinstance(n, ast.Call) and isinstance(n.func, ast.Attribute) and n.func.attr in MUTATING_METHODS:
             root = n.func.value
-            while isinstance(root, (ast.Subscript, ast.Attribute)):
-                root = root.value
-            if isinstance(root, ast.Name) and root.id in alias:
-                # appending to a purely local list of store values is not a store mutation
-                if n.func.attr in ("append", "add", "extend") and isinstance(n.func.value, ast.Name) and not _directly_bound_to_store(func_node, n.func.value.id):
-                    continue
-                out.append((n, root.id, alias[root.id]))
-        elif isinstance(n, (ast.Assign, ast.AugAssign, ast.Delete)):
-            tgts = n.targets if isinstance(n, (ast.Assign, ast.Delete)) else [n.target]
-            for t in tgts:
+        elif isinstance(n, (ast.Assign, ast.Delete)):
+            for t in n.targets:
                 if isinstance(t, ast.Subscript):
                     root = t.value
-                    while isinstance(root, (ast.Subscript, ast.Attribute)):
-                        root = root.value
-                    if isinstance(root, ast.Name) and root.id in alias and _directly_bound_to_store(func_node, root.id):
-                        out.append((n, root.id, alias[root.id]))
-                elif isinstance(n, ast.AugAssign) and isinstance(t, ast.Name) and t.id in alias and isinstance(n.op, (ast.BitOr, ast.BitAnd, ast.Sub, ast.Add)) and _directly_bound_to_store(func_node, t.id):
-                    out.append((n, t.id, alias[t.id]))
+        elif isinstance(n, ast.AugAssign):
+            if isinstance(n.target, ast.Subscript):
+                root = n.target.value
+            elif isinstance(n.target, ast.Name) and isinstance(n.op, (ast.BitOr, ast.BitAnd, ast.Sub, ast.Add, ast.BitXor)):
+                root = n.target
+        if root is None:
+            continue
+        while isinstance(root, (ast.Subscript, ast.Attribute)):
+            root = root.value
+        if not isinstance(root, ast.Name):
+            continue
+        for nid in at_nodes(n):
+            a = lookup(root.id, nid, alias)
+            if a and id(n) not in seen:
+                seen.add(id(n))
+                out.append((n, root.id, a))
     return out
-
-
-def _directly_bound_to_store(func_node: ast.AST, name: str) -> bool:
-    """the local name is (on some assignment) bound to a store value itself, not to a fresh list of them"""
-    for n in walk_no_nested(func_node):
-        val = None
-        if isinstance(n, ast.Assign) and any(isinstance(t, ast.Name) and t.id == name for t in n.targets):
-            val = n.value
-        elif isinstance(n, ast.AnnAssign) and isinstance(n.target, ast.Name) and n.target.id == name:
-            val = n.value
-        elif isinstance(n, (ast.For, ast.comprehension)) and isinstance(n.target, ast.Name) and n.target.id == name:
-            val = n.iter
-        if val is None:
-            continue
-        if isinstance(val, (ast.List, ast.Set, ast.Dict, ast.ListComp, ast.SetComp, ast.DictComp)):
-            continue
-        if isinstance(val, ast.Call) and isinstance(val.func, ast.Name) and val.func.id in ("list", "set", "dict", "sorted", "tuple", "frozenset"):
-            continue
-        if isinstance(val, ast.Call) and call_name(val) in ("copy", "deepcopy"):
-            continue
-        return True
-    return False
